@@ -70,3 +70,20 @@ func VerifH_C07_file_fractalheap() {
 	}
 	vrt.Covered("fractalheap-read")
 }
+
+// the link message parser the group loader uses (structures.ParseLinkMessage, distinct from core.ParseLinkMessage)
+// on an arbitrary buffer of 0..20 bytes (28 thorough): a value or an error, never a panic
+func VerifH_C07_structures_link() {
+	vrt.AllocBudget(1 << 20)
+	n := 20
+	if vrt.Thorough() {
+		n = 28
+	}
+	data := vrt.Bytes(vrt.Choice(n + 1))
+	sb := &core.Superblock{Version: 2, OffsetSize: 8, LengthSize: 8, Endianness: binary.LittleEndian}
+	l, err := ParseLinkMessage(data, sb)
+	if err == nil {
+		vrt.Assert(l != nil, "link-nil-without-error")
+	}
+	vrt.Covered("structures-link-parsed")
+}
